@@ -2,11 +2,15 @@
    Only statements, each closed by `exact <lemma>`; proofs live in Proofs/FontProofs.v and Proofs/TdfProofs.v.
    The functions quantified over are the models of Model/Font.v and Model/Tdf.v (over the constants of
    Gen/FontConsts.v, regenerated from src/fonts.rs and src/tdf_font/mod.rs on every run), i.e. the merged tree: the
-   `fix:` commits of C17 plus C10's c9c7437 (checked glyph-index -> char conversion, empty glyph for a missing one). `res` distinguishes Ok / Err (returned error) / Panic / Diverge.
+   `fix:` commits of C17 plus C10's c9c7437 (checked glyph-index -> char conversion, empty glyph for a missing one) plus fix fB
+   (the loaders behind from_bytes accept a glyph size of 1..=MAX_FONT_WIDTH x 1..=MAX_FONT_HEIGHT = 8 x 32 only; load_psf2 wants
+   charsize = height). `res` distinguishes Ok / Err (returned error) / Panic / Diverge.
 
    Domains (defined in Proofs/FontProofs.v, Proofs/TdfProofs.v):
      wf_font f      width 8, height 1..=32, length 256 or 512, exactly `length` glyphs of `height` rows each
-     wf_psf2_font f width, height < 2^31, height >= 1, 0 <= length <= 0xD800, `length` glyphs of `height` rows
+     wf_psf2_font f width 1..=MAX_FONT_WIDTH (8), height 1..=MAX_FONT_HEIGHT (32) - every size the loader accepts since fix fB;
+                    before it: any width, height < 2^31 -, 0 <= length <= 0xD800, `length` glyphs of `height` rows
+     dims_ok f      1 <= width <= MAX_FONT_WIDTH /\ 1 <= height <= MAX_FONT_HEIGHT
      wf_raw_font f  width 8, height 1..=255 (a u8), length 256, 256 glyphs of `height` rows
      wf_psf2_partial f / wf_raw_partial f   as wf_psf2_font / wf_raw_font but with ANY number of glyphs present
                     (fewer or more than `length`); pad_font f = f with the glyph table cut / padded with empty
@@ -54,11 +58,13 @@ Theorem wf_font_256_is_raw : forall f, wf_font f -> f_len f = 256%Z -> wf_raw_fo
 Proof. exact wf_font_raw. Qed.
 
 (* DCS: ESC P CTerm:Font:<slot>:<base64 of the raw data> ESC \ ; base64 enters only through its inverse law.
-   The side condition is forced by the format: the loader sniffs the decoded bytes (known finding below). *)
+   The side condition is forced by the format: the loader sniffs the decoded bytes (known finding below).
+   Since fix fB the raw loader takes heights 1..=MAX_FONT_HEIGHT = 32 (the range of the property; wf_raw_font alone
+   allows a u8 height up to 255, which create_8 / from_basic still build). *)
 Theorem dcs_roundtrip :
   forall (b64_enc : list N -> list N) (b64_dec : list N -> option (list N)),
   (forall x, b64_dec (b64_enc x) = Some x) ->
-  forall slot f, wf_raw_font f -> slot < 18446744073709551616 ->
+  forall slot f, wf_raw_font f -> (f_h f <= Z.of_N MAX_FONT_HEIGHT)%Z -> slot < 18446744073709551616 ->
   exists raw, convert_to_u8_data f = Ok raw /\
     encode_as_ansi b64_enc slot f = Ok ([27; 80] ++ dcs_string b64_enc slot raw ++ [27; 92]) /\
     (sniffs_as_psf raw = false -> load_custom_font b64_dec (dcs_string b64_enc slot raw) = Ok (slot, f)).
@@ -98,6 +104,24 @@ Proof. exact from_bytes_total_proof. Qed.
 
 Theorem dcs_total : forall (b64_dec : list N -> option (list N)) s, safe (load_custom_font b64_dec s).
 Proof. exact dcs_total_proof. Qed.
+
+(* fix fB (finding C02-sixel-font0): whatever from_bytes accepts - a PSF1, PSF2 or raw font, a file or the payload of a
+   `CTerm:Font:` DCS string - has a glyph size of 1..=8 x 1..=32. No loaded font has a zero, huge or negative dimension. *)
+Theorem loaded_font_dims : forall data f, from_bytes data = Ok f ->
+  (1 <= f_w f <= Z.of_N MAX_FONT_WIDTH)%Z /\ (1 <= f_h f <= Z.of_N MAX_FONT_HEIGHT)%Z.
+Proof. exact loaded_font_dims_proof. Qed.
+
+Theorem dcs_font_dims : forall (b64_dec : list N -> option (list N)) s slot f,
+  load_custom_font b64_dec s = Ok (slot, f) -> dims_ok f.
+Proof. exact dcs_font_dims_proof. Qed.
+
+(* the loader before the fix took width and height from the header as they were: 0, 2^30 and 2^32-1 (-1 as an i32) *)
+Theorem psf2_dims_before_fix_refuted :
+  load_psf2_before_fix (psf2_header 16 0) = Ok (mkFont 0 16 0 []) /\
+  load_psf2_before_fix (psf2_header 0 8) = Ok (mkFont 8 0 0 []) /\
+  load_psf2_before_fix (psf2_header 16 1073741824) = Ok (mkFont 1073741824 16 0 []) /\
+  load_psf2_before_fix (psf2_header 4294967295 4294967295) = Ok (mkFont (-1) (-1) 0 []).
+Proof. exact psf2_dims_before_fix_refuted_proof. Qed.
 
 (* the writers, too (new with c9c7437: no `unwrap` of a missing glyph, no unchecked char): they return for EVERY
    glyph table, every `length` and every width, as long as the height is not negative; a negative height together
@@ -158,7 +182,15 @@ Example sample_partial_psf2 :
   | Ok bs => lenN bs = 42 /\ from_bytes bs = Ok (mkFont 8 2 5 [[1; 2]; [3; 4]; [5; 6]; [0; 0]; [0; 0]])
   | _ => False
   end.
-Proof. split; [unfold wf_psf2_partial, rows_ok, MAX_GLYPHS; cbn; repeat split; try lia; repeat constructor | vm_compute; repeat split]. Qed.
+Proof. split; [unfold wf_psf2_partial, rows_ok, MAX_GLYPHS, MAX_FONT_WIDTH, MAX_FONT_HEIGHT; cbn; repeat split; try lia; repeat constructor | vm_compute; repeat split]. Qed.
+(* the same headers (and a PSF1 header with charsize 0) are refused now; a good size with a wrong charsize / length too *)
+Example degenerate_headers_refused :
+  from_bytes (psf2_header 16 0) = Err E_SIZE /\ from_bytes (psf2_header 0 8) = Err E_SIZE /\
+  from_bytes (psf2_header 16 1073741824) = Err E_SIZE /\ from_bytes (psf2_header 4294967295 4294967295) = Err E_SIZE /\
+  from_bytes [54; 4; 0; 0] = Err E_SIZE /\
+  from_bytes (psf2_header 16 8) = Err E_LENGTH /\
+  from_bytes (psf2_header 16 8 ++ repeat 0 32) = Err E_LENGTH.
+Proof. exact psf2_dims_after_fix_proof. Qed.
 Example sample_font_raw_wf : wf_raw_font (sample_font 256).
 Proof. exact (wf_font_raw _ sample_font_256_wf eq_refl). Qed.
 
